@@ -88,6 +88,28 @@ VARIANTS = [
          "new": "    def _finish_body(self, msg, body_writer):\n        msg_body = body_writer.buffer\n        if msg.zerocoded:\n"
                 "            msg_body = self.zero_code_compress(msg_body)\n        return msg_body\n\n"
                 "    def _serialize_block(self, writer: se.BufferWriter, tmpl_block: MessageTemplateBlock,\n"}]},
+    {"name": "P R1 header and ack trailer written by helpers that are handed the writer", "expect": "silent", "edits": [
+        {"file": SER, "old": "        writer.write(se.U8, msg.send_flags)\n        # Should already have a packet ID by this point\n"
+                             "        # But treat it as \"0\" if not.\n        writer.write(se.U32, msg.packet_id or 0)\n"
+                             "        # pack in the offset to the data past the extra data.\n        writer.write(se.U8, len(msg.extra))\n",
+         "new": "        self._put_header(writer, msg)\n"},
+        {"file": SER, "old": "            # ACKs are always written in reverse order\n            for ack in reversed(msg.acks):\n"
+                             "                writer.write(se.U32, ack)\n            writer.write(se.U8, len(msg.acks))\n",
+         "new": "            self._put_trailer(writer, msg)\n"},
+        {"file": SER, "old": "    def _serialize_block(self, writer: se.BufferWriter, tmpl_block: MessageTemplateBlock,\n",
+         "new": "    def _put_header(self, out, msg):\n        out.write(se.U8, msg.send_flags)\n        out.write(se.U32, msg.packet_id or 0)\n"
+                "        out.write(se.U8, len(msg.extra))\n\n"
+                "    def _put_trailer(self, out, msg):\n        for ack in reversed(msg.acks):\n            out.write(se.U32, ack)\n"
+                "        out.write(se.U8, len(msg.acks))\n\n"
+                "    def _serialize_block(self, writer: se.BufferWriter, tmpl_block: MessageTemplateBlock,\n"}]},
+    {"name": "R1 trailer helper called under the wrong condition", "expect": "C02.R1", "edits": [
+        {"file": SER, "old": "        if msg.has_acks:\n            # ACKs are always written in reverse order\n            for ack in reversed(msg.acks):\n"
+                             "                writer.write(se.U32, ack)\n            writer.write(se.U8, len(msg.acks))\n",
+         "new": "        if len(msg.acks) > 0:\n            self._put_trailer(writer, msg)\n"},
+        {"file": SER, "old": "    def _serialize_block(self, writer: se.BufferWriter, tmpl_block: MessageTemplateBlock,\n",
+         "new": "    def _put_trailer(self, out, msg):\n        for ack in reversed(msg.acks):\n            out.write(se.U32, ack)\n"
+                "        out.write(se.U8, len(msg.acks))\n\n"
+                "    def _serialize_block(self, writer: se.BufferWriter, tmpl_block: MessageTemplateBlock,\n"}]},
     # ------------------------------------------------------------------ R2 breaking
     {"name": "R2 restore removed from the handler (D2)", "file": DES, "expect": "C02.R2",
      "old": "            msg.raw_body = raw_body\n            msg.deserializer = weakref.ref(self)\n            raise\n",
@@ -182,6 +204,19 @@ VARIANTS = [
      "old": "            return struct_obj.pack(*x)\n", "new": "            return struct_obj.pack(*(round(c, 6) for c in x))\n"},
     {"name": "P R6 components selected into a local first", "file": PACK, "expect": "silent",
      "old": "            return struct_obj.pack(*x[:needed_elems])", "new": "            wanted = tuple(x)[:needed_elems]\n            return struct_obj.pack(*wanted)"},
+    {"name": "P R4 heuristic moved into a helper with guard clauses", "expect": "silent", "edits": [
+        {"file": DES, "old": "        if not isinstance(unpacked_data, bytes):\n            return unpacked_data\n",
+         "new": "        if not isinstance(unpacked_data, bytes):\n            return unpacked_data\n"
+                "        return self._pick_repr(tmpl_variable, unpacked_data)\n\n"
+                "    def _pick_repr(self, tmpl_variable, raw):\n        unpacked_data = raw\n"},
+        {"file": DES, "old": "        unpacked_data = raw\n", "new": ""},
+        {"file": DES, "old": "    def _pick_repr(self, tmpl_variable, raw):\n", "new": "    def _pick_repr(self, tmpl_variable, unpacked_data):\n"}]},
+    {"name": "R4 helper that picks the representation strips every NUL", "expect": "C02.R4", "edits": [
+        {"file": DES, "old": "        if not isinstance(unpacked_data, bytes):\n            return unpacked_data\n",
+         "new": "        if not isinstance(unpacked_data, bytes):\n            return unpacked_data\n"
+                "        return self._pick_repr(tmpl_variable, unpacked_data)\n\n"
+                "    def _pick_repr(self, tmpl_variable, unpacked_data):\n"},
+        {"file": DES, "old": 'return unpacked_data[:-1].decode("utf8")', "new": r'return unpacked_data.rstrip(b"\x00").decode("utf8")'}]},
     # ------------------------------------------------------------------ R5 breaking
     {"name": "R5 writer skips on truthiness", "file": SER, "expect": "C02.R5",
      "old": "if block_list is None:", "new": "if not block_list:"},
@@ -194,6 +229,9 @@ VARIANTS = [
     {"name": "R5 reader records the block before testing for end of data", "expect": "C02.R5", "edits": [
         {"file": DES, "old": "            msg.create_block_list(tmpl_block.name)\n", "new": ""},
         {"file": DES, "old": "            # EOF?\n", "new": "            msg.create_block_list(tmpl_block.name)\n            # EOF?\n"}]},
+    {"name": "R5 reader tolerates end of data between the repeats of a block", "file": DES, "expect": "C02.R5",
+     "old": "            for i in range(repeat_count):\n",
+     "new": "            for i in range(repeat_count):\n                if len(reader) == 0:\n                    break\n"},
     # ------------------------------------------------------------------ R5 preserving
     {"name": "P R5 rename the writer's block list local", "expect": "silent", "edits": [
         {"file": SER, "old": "block_list = blocks.pop(tmpl_block.name, None)", "new": "present = blocks.pop(tmpl_block.name, None)"},
